@@ -150,7 +150,7 @@ Finish2(S0, e) == Apply(Apply(S0, e), EndEv)
 GenTasks ==
   /\ pc = "gen"
   /\ IF Unhandled(S.c)
-     THEN /\ S' = Finish2(S, [ev |-> "error", errs |-> <<>>, panic |-> FALSE]) /\ pc' = "done" /\ UNCHANGED spawned
+     THEN /\ S' = Finish2(S, [ev |-> "error", as |-> TRUE, errs |-> <<>>, panic |-> FALSE]) /\ pc' = "done" /\ UNCHANGED spawned
      ELSE /\ pc' = (IF N = 1 THEN "inline" ELSE "spawn") /\ spawned' = 1 /\ UNCHANGED S
   /\ UNCHANGED <<sc, ts, sched, frames>>
 
@@ -172,7 +172,7 @@ Ret(i) ==
             IF i = 1
             THEN \* inline task: no recover in parallelRunToolCall; a graph run recovers and fails, otherwise the caller sees it
                  /\ S' = Finish2(Apply(S, TEnd(i, "panic", "")),
-                                 IF sc.graph THEN [ev |-> "error", errs |-> <<>>, panic |-> TRUE] ELSE [ev |-> "escaped"])
+                                 IF sc.graph THEN [ev |-> "error", as |-> TRUE, errs |-> <<>>, panic |-> TRUE] ELSE [ev |-> "escaped"])
                  /\ pc' = "done" /\ UNCHANGED ts
             ELSE /\ S' = Apply(S, TEnd(i, "panic", ""))
                  \* worker goroutine: recover() stores the error, then wg.Done(); "donebeforeerr": Done first, the error later (StoreErr)
@@ -220,7 +220,7 @@ WaitDone == /\ pc = "wait" /\ \A i \in 2..N : ts[i].done
             /\ pc' = "asm" /\ UNCHANGED <<sc, spawned, ts, S, sched, frames>>
 
 Src(i) == IF Bug = "reverse" THEN N + 1 - i ELSE i
-ErrEv(i) == [ev |-> "error", errs |-> (IF ts[i].err = "err" THEN ErrOf(i) ELSE <<>>), panic |-> (ts[i].err = "panic")]
+ErrEv(i) == [ev |-> "error", as |-> TRUE, errs |-> (IF ts[i].err = "err" THEN ErrOf(i) ELSE <<>>), panic |-> (ts[i].err = "panic")]
 Assemble ==
   /\ pc = "asm"
   /\ LET bad == {i \in 1..N : ts[i].err # ""} IN
@@ -240,10 +240,10 @@ Recv(i) ==
   /\ pc = "consume" /\ ts[i].avail # <<>>
   /\ LET it == Head(ts[i].avail) IN
      IF it = "ERR"
-     THEN /\ S' = Finish2(S, [ev |-> "error", errs |-> ErrOf(i), panic |-> FALSE]) /\ pc' = "done" /\ UNCHANGED <<ts, frames>>
+     THEN /\ S' = Finish2(S, [ev |-> "error", as |-> TRUE, errs |-> ErrOf(i), panic |-> FALSE]) /\ pc' = "done" /\ UNCHANGED <<ts, frames>>
      ELSE IF Bug = "sharedidx"
      THEN \* ret[n] with the shared loop variable: index out of range, recovered into an error item of the stream
-          /\ S' = Finish2(S, [ev |-> "error", errs |-> <<>>, panic |-> TRUE]) /\ pc' = "done" /\ UNCHANGED <<ts, frames>>
+          /\ S' = Finish2(S, [ev |-> "error", as |-> TRUE, errs |-> <<>>, panic |-> TRUE]) /\ pc' = "done" /\ UNCHANGED <<ts, frames>>
      ELSE IF Bug = "dropempty" /\ it = ""
      THEN \* the convert function answers ErrNoValue for an empty frame: the frame is skipped
           /\ ts' = [ts EXCEPT ![i].avail = Tail(@)] /\ UNCHANGED <<S, pc, frames>>
